@@ -343,6 +343,10 @@ func Run(opts *Options) (int, error) {
 		inputRevision.bumpMajor()
 		header = make([]string, 0, opts.HeaderLines)
 		headerUpdated = false
+		if opts.HeaderLines > 0 {
+			// The new input may have no line to replace the old header with
+			terminal.UpdateHeader(make([]string, opts.HeaderLines))
+		}
 		readyChan := make(chan bool)
 		go reader.restart(command, environ, readyChan)
 		<-readyChan
